@@ -305,6 +305,27 @@ def salts(run, names):
             run.count(f"salts:{name}")
 
 
+def application_hasher(run):
+    """an application-defined hasher may declare a narrower alphabet for generated salts than for accepted ones
+    (default_salt_chars a subset of salt_chars): generated salts stay inside the narrower one and use all of it"""
+    import passlib.hash as PH
+
+    class narrow_md5(PH.md5_crypt):
+        name = "narrow_md5"
+        default_salt_chars = "abcd"
+
+    for cls, extract in ((narrow_md5, lambda hs: hs.split("$")[2]),):
+        seen = {}
+        for _ in range(400):
+            for c in extract(cls.hash("pw")):
+                seen[c] = seen.get(c, 0) + 1
+        run.case(("application-hasher", cls.name), dict(hasher=cls.name, declared_default_alphabet=cls.default_salt_chars, symbols_seen="".join(sorted(seen))))
+        run.count("application_hasher_salts", 400)
+        if set(seen) != set(cls.default_salt_chars):
+            run.violation("C06|application-hasher|generated-salt-outside-default_salt_chars", f"{cls.name}: generated salts use the symbols {''.join(sorted(seen))!r}, the declared alphabet for generated salts is {cls.default_salt_chars!r}",
+                          dict(hasher=cls.name, seen=seen))
+
+
 def other_generators(run):
     import passlib.totp as T
     import passlib.pwd as P
@@ -507,6 +528,8 @@ def body(run):
     exhaustive(run)
     statistical(run)
     other_generators(run)
+    application_hasher(run)
+    run.require("application_hasher_salts", 100)
     pinned_salt(run)
     names = [n for n in H.names() if "salt" in getattr(H.get(n), "setting_kwds", ()) and H.usable(n) and n != "cisco_type7"]
     run.parallel("checks.c06", "salts", [dict(names=names[i::12]) for i in range(12)], timeout=900 if run.tier == "quick" else 3600)
